@@ -78,3 +78,42 @@ Definition kstep (close_on_timeout : bool) (m : nat) (s : kstate) (e : kev) : ks
 Definition krun (close_on_timeout : bool) (m : nat) (evs : list kev) : kstate := fold_left (kstep close_on_timeout m) evs kinit.
 
 Definition final (v : status) : bool := match v with Fulfilled _ | Rejected => true | _ => false end.
+
+(* ---- the hand-over protocol between threads (Client::doRequest / processRequestQueue / onDone) ----
+   A request that finds no idle connection is queued in a second step; a connection is released and
+   the queue looked at ("process") in two steps of the completing thread.  The steps of different
+   threads interleave freely.  [recheck]: Client::doRequest looks at the queue again after queueing
+   (fix 5005dd0).  Any number of connections ([idle] counts the idle ones), any number of threads. *)
+Record hstate := mkH {
+  h_idle : nat;        (* idle connections *)
+  h_busy : nat;        (* connections with a request in flight *)
+  h_queue : nat;       (* queued requests *)
+  h_toenq : nat;       (* threads between "no idle connection" and "queued" *)
+  h_toproc : nat }.    (* threads that have still to look at the queue *)
+
+Inductive hev :=
+| HPickOk         (* doRequest: an idle connection is claimed, the request sent *)
+| HPickFail       (* doRequest: every connection is busy *)
+| HEnqueue        (* ... the request is queued *)
+| HRelease        (* a response (time-out, error) completes a request: the connection is idle again *)
+| HProcess.       (* a thread looks at the queue (processRequestQueue, under the queue lock): queued requests
+                     are taken as long as a connection is idle *)
+
+Definition hstep (recheck : bool) (s : hstate) (e : hev) : hstate :=
+  match e with
+  | HPickOk => match h_idle s with S i => mkH i (S (h_busy s)) (h_queue s) (h_toenq s) (h_toproc s) | O => s end
+  | HPickFail => match h_idle s with O => mkH 0 (h_busy s) (h_queue s) (S (h_toenq s)) (h_toproc s) | S _ => s end
+  | HEnqueue => match h_toenq s with
+                | S t => mkH (h_idle s) (h_busy s) (S (h_queue s)) t (if recheck then S (h_toproc s) else h_toproc s)
+                | O => s end
+  | HRelease => match h_busy s with S b => mkH (S (h_idle s)) b (h_queue s) (h_toenq s) (S (h_toproc s)) | O => s end
+  | HProcess => match h_toproc s with
+                | S p => let k := Nat.min (h_idle s) (h_queue s) in
+                         mkH (h_idle s - k) (h_busy s + k) (h_queue s - k) (h_toenq s) p
+                | O => s end
+  end.
+Definition hrun (recheck : bool) (m : nat) (evs : list hev) : hstate := fold_left (hstep recheck) evs (mkH m 0 0 0 0).
+
+(* a request is stuck: queued, a connection idle, and no thread left that will look at the queue *)
+Definition h_stuck (s : hstate) : bool :=
+  Nat.ltb 0 (h_queue s) && Nat.ltb 0 (h_idle s) && Nat.eqb (h_toproc s) 0 && Nat.eqb (h_toenq s) 0.
